@@ -65,10 +65,18 @@ def kindValid (c : BoCfg) : Bool := c.kind ≤ 2
 /-- `(*Backoff).Validate(allowEmpty)` (backoff.go:44-52): does it return nil? -/
 def validate (c : BoCfg) (allowEmpty : Bool) : Bool := (allowEmpty || !isEmpty c) && kindValid c
 
-/-- how often a routine that fails `fails` times and then succeeds is run under `routine.WithRetry(conf)`
-(options.go:60-69) when the backoff never gives up: once per failure and once more; with a nil configuration no
-retry is configured and it runs once -/
-def runsUnder (present : Bool) (fails : Nat) : Nat := if present then fails + 1 else 1
+/-- the constructed backoff never answers Stop: a constant backoff, or an exponential one without
+`max_elapsed_time` -/
+def neverStops (c : BoCfg) : Bool := c.kind == 2 || c.maxEl == 0
+
+/-- is `runs` a possible number of runs of a routine that fails `fails` times and then succeeds, under
+`routine.WithRetry(conf)` (options.go:60-69)? `conf = nil` configures no retry: one run. Any non-nil configuration
+— also one whose kind is unset, which `Construct` treats as exponential — configures the constructed backoff: the
+routine is run again after every failure as long as the backoff does not answer Stop. -/
+def runsOK (c : Option BoCfg) (fails runs : Nat) : Bool :=
+  match c with
+  | none => runs == 1
+  | some cfg => if neverStops cfg then runs == fails + 1 else (1 ≤ runs && runs ≤ fails + 1)
 
 /-! ## theorems -/
 
@@ -108,6 +116,16 @@ theorem constant_interval (c : BoCfg) (hk : c.kind = 2) :
     construct c = .const (if c.interval = 0 then 5000 else c.interval) := by
   simp [construct, constructConstant, hk]
 
+/-- **a configuration whose kind is unset is not "no retry"**: `Construct` builds the exponential backoff (with the
+defaults where a field is zero), and without `max_elapsed_time` a routine that fails `fails` times is run
+`fails + 1` times under `WithRetry` of it -/
+theorem retry_kind_unset (c : BoCfg) (hk : c.kind = 0) (he : c.maxEl = 0) (fails runs : Nat) :
+    (∃ i m x r, construct c = .expo i m x r 0) ∧ (runsOK (some c) fails runs = true ↔ runs = fails + 1) := by
+  refine ⟨?_, ?_⟩
+  · have := maxElapsed_exact c (by rw [hk]; decide)
+    rw [he] at this; exact this
+  · simp [runsOK, neverStops, he]
+
 /-! ## correspondence model: the harness logs a configuration, the constructed parameters, and the Stop decisions of
 `NextBackOff` under a fake clock -/
 
@@ -116,7 +134,7 @@ inductive Obs where
   | params (p : BoParams)
   | stop (elapsed : Nat) (b : Bool)
   | valid (empty strict lenient : Bool)
-  | runs (present : Bool) (fails runs : Nat)
+  | runs (c : Option BoCfg) (fails runs : Nat)
 deriving DecidableEq, Repr
 
 structure St where
@@ -143,7 +161,7 @@ def step (s : St) : Obs → Option St
     match s.cfg with
     | some c => if e = isEmpty c ∧ v0 = validate c false ∧ v1 = validate c true then some s else none
     | none => none
-  | .runs present fails runs => if runs = runsUnder present fails then some s else none
+  | .runs c fails runs => if runsOK c fails runs then some s else none
 
 def model : OLTS St Obs Obs where
   init := {}
@@ -168,7 +186,8 @@ def Obs.parse : List String → Option Obs
   | ["bostop", t, b] => do
     pure (.stop (← t.toNat?) (← (if b == "1" then some true else if b == "0" then some false else none)))
   | ["bovalid", e, v0, v1] => do pure (.valid (← pB e) (← pB v0) (← pB v1))
-  | ["boruns", p, f, r] => do pure (.runs (← pB p) (← f.toNat?) (← r.toNat?))
+  | ["boruns", "nil", f, r] => do pure (.runs none (← f.toNat?) (← r.toNat?))
+  | ["boruns", k, i, m, x, rd, e, c, f, r] => do pure (.runs (some (← pCfg [k, i, m, x, rd, e, c])) (← f.toNat?) (← r.toNat?))
   | _ => none
 
 /-- **C14, backoff clause**: a backoff constructed from a configuration without `max_elapsed_time` has
@@ -189,8 +208,12 @@ def monC14bo : ObsMonitor Obs (Option BoCfg) where
        | none => some ms)
     -- an empty configuration does not pass strict validation; what passes strict validation passes the lenient one
     | .valid e v0 v1 => if (e && v0) || (v0 && !v1) then none else some ms
-    -- with a retry configuration a failing routine is run again until it succeeds; without one it runs once
-    | .runs present fails runs => if (present && runs != fails + 1) || (!present && runs != 1) then none else some ms
+    -- with a retry configuration (also one whose kind is unset) whose backoff never gives up a failing routine is
+    -- run again until it succeeds; without one (nil) it runs once
+    | .runs c fails runs =>
+      (match c with
+       | none => if runs == 1 then some ms else none
+       | some cfg => if neverStops cfg && runs != fails + 1 then none else some ms)
 
 /-- every trace of the model satisfies the backoff clause -/
 theorem C14bo_obs (es : List Obs) (s : St) (hr : model.run model.init es = some s) :
@@ -264,14 +287,23 @@ theorem C14bo_obs (es : List Obs) (s : St) (hr : model.run model.init es = some 
             cases h0 : (c.kind == 0) <;> cases h1 : decide (c.kind ≤ 2) <;> simp
           simp [this]
         · cases hs
-    | runs present fails runs =>
+    | runs c fails runs =>
       simp only [model, step] at hs
       split at hs
       · rename_i hg
         simp only [Option.some.injEq] at hs; subst hs
         refine ⟨s.cfg, ?_, rfl⟩
-        subst hg
-        cases present <;> simp [monC14bo, runsUnder]
+        cases c with
+        | none =>
+          simp only [runsOK, beq_iff_eq] at hg
+          simp [monC14bo, hg]
+        | some cfg =>
+          simp only [runsOK] at hg
+          cases hn : neverStops cfg with
+          | true =>
+            simp only [hn, if_true, beq_iff_eq] at hg
+            simp [monC14bo, hn, hg]
+          | false => simp [monC14bo, hn]
       · cases hs)
   exact hsim es s hr
 
